@@ -4,7 +4,12 @@
    [WF] well-foundedness of the parent pointers; both hold of every HUGR built through the public API inside
    the guard of C04 (C08_sources_satisfy_the_hypotheses), whatever index reuse happened (no ParentFirst
    hypothesis: D20 is repaired).  "B itself is not modified" is immediate in a pure model (insert_hugr
-   returns a new A and does not return B); aliasing of op objects / metadata dicts is outside the model. *)
+   returns a new A and does not return B); aliasing of op objects / metadata dicts is outside the model.
+
+   WHICH fresh indices the copies receive is not part of the property (the mapping must be an isomorphism onto
+   nodes that were not live in A).  The model takes those choices as an oracle [om] (model/Graph.v: the mapping
+   the implementation returned; a choice is followed when it names a free index of A, the most recently freed
+   index is taken otherwise); every statement below is quantified over ALL oracles. *)
 From Coq Require Import List Bool Arith ZArith Permutation.
 Import ListNotations.
 From HV Require Import lib.PyDict lib.Harness model.BiMapM model.Graph spec.GraphS spec.InsertS
@@ -20,10 +25,10 @@ Section C08.
      of A plus every link of B through the mapping, with offsets and multiplicity (order links are links at
      offset -1); every node of A is unchanged except that the parent gains the image of B's root as its last
      child; nothing else is live; the invariant holds of A'. *)
-  Theorem C08_insert_iso_and_frame : forall (A B : hugr) (parent : option nid),
+  Theorem C08_insert_iso_and_frame : forall (om : mapping) (A B : hugr) (parent : option nid),
     let p := match parent with Some x => x | None => root A end in
     Inv A -> Inv B -> WF B -> get_node A p <> None ->
-    exists A' m, insert_hugr A B parent = (A', m, Ok) /\ Inv A' /\ IsoFrame A B p m A'.
+    exists A' m, insert_hugr om A B parent = (A', m, Ok) /\ Inv A' /\ IsoFrame A B p m A'.
   Proof. exact insert_ok. Qed.
 
   (* every link with its port offsets and multiplicity, as listed by linked_ports from either end *)
@@ -54,10 +59,10 @@ Section C08.
   Proof. exact insert_satisfies_monitored_spec. Qed.
 
   (* and it is the insertion of the sequential specification of C04 (disjoint union along the mapping) *)
-  Theorem C08_insert_refines_the_sequential_spec : forall (A B : hugr) gA gB (parent : option nid),
+  Theorem C08_insert_refines_the_sequential_spec : forall (om : mapping) (A B : hugr) gA gB (parent : option nid),
     let p := match parent with Some x => x | None => root A end in
     Inv A -> Inv B -> WF B -> Rep A gA -> Rep B gB -> get_node A p <> None ->
-    exists A' m, insert_hugr A B parent = (A', m, Ok) /\ Inv A' /\
+    exists A' m, insert_hugr om A B parent = (A', m, Ok) /\ Inv A' /\
                  mapping_ok gA gB m = true /\ Rep A' (s_insert gA gB m p).
   Proof. exact insert_rep. Qed.
 
@@ -68,11 +73,11 @@ Section C08.
 
   (* the hypotheses hold of every HUGR built by a history of public calls inside the guard, insert_hugr included
      (this is also C04's store_inv_reachable for all histories) *)
-  Theorem C08_sources_satisfy_the_hypotheses : forall (o : Op) (m : Meta) cs,
+  Theorem C08_sources_satisfy_the_hypotheses : forall (o : Op) (m : Meta) (cs : list (cmd Op Meta * ret)),
     guarded (init o m) cs -> Inv (run (init o m) cs) /\ WF (run (init o m) cs).
   Proof. exact store_inv_reachable. Qed.
-  Theorem C08_step_inside_guard_returns : forall (h : hugr) c, Inv h -> WF h -> guarded1 h c ->
-    snd (step h c) = Ok /\ Inv (fst (fst (step h c))) /\ WF (fst (fst (step h c))).
+  Theorem C08_step_inside_guard_returns : forall pick (h : hugr) c, Inv h -> WF h -> guarded1 pick h c ->
+    snd (step pick h c) = Ok /\ Inv (fst (fst (step pick h c))) /\ WF (fst (fst (step pick h c))).
   Proof. exact step_inv. Qed.
 End C08.
 
@@ -87,23 +92,23 @@ End C08.
    wires ask for it, and not at all when A already had it.  In particular no wire ends anywhere but in the image of
    the root and no link of A' (hence of A, or of the copy of B) is touched.  Operation, parent, ordered children and
    metadata of every node stay as the plain insertion made them (only port counts may be re-declared). *)
-Theorem C08_insert_wrappers_attach_wires : forall {Op Meta : Type} (A B : hugr Op Meta) (p : nid) (ws : list port) ki ko,
+Theorem C08_insert_wrappers_attach_wires : forall {Op Meta : Type} (om : mapping) (A B : hugr Op Meta) (p : nid) (ws : list port) ki ko,
   Inv A -> Inv B -> WF B -> get_node A p <> None -> wires_guard (abs A) p ws = true ->
   exists A' A'' m r',
-    insert_hugr A B (Some p) = (A', m, Ok) /\ IsoFrame A B p m A' /\ dget Nat.eqb m (root B) = Some r' /\
-    insert_wrapped A B p ws ki ko = (A'', m, Ok) /\ root A'' = root A /\
+    insert_hugr om A B (Some p) = (A', m, Ok) /\ IsoFrame A B p m A' /\ dget Nat.eqb m (root B) = Some r' /\
+    insert_wrapped om A B p ws ki ko = (A'', m, Ok) /\ root A'' = root A /\
     Permutation (q_links A'') (q_links A' ++ wires_extra (abs A) p r' ws) /\
     forall x, option_map shape4 (get_node A'' x) = option_map shape4 (get_node A' x).
 Proof. intros Op Meta. exact insert_wrappers_attach_wires. Qed.
 
 (* the special case of wires that are outputs of siblings of the inserted root: one link per wire and nothing else *)
 Theorem C08_insert_wrappers_attach_sibling_wires :
-  forall {Op Meta : Type} (A B : hugr Op Meta) (p : nid) (ws : list port) ki ko,
+  forall {Op Meta : Type} (om : mapping) (A B : hugr Op Meta) (p : nid) (ws : list port) ki ko,
   Inv A -> Inv B -> WF B -> get_node A p <> None ->
   (forall w, In w ws -> (exists d, get_node A (fst w) = Some d /\ nd_parent d = Some p) /\ (-1 <= snd w)%Z) ->
   exists A' A'' m r',
-    insert_hugr A B (Some p) = (A', m, Ok) /\ IsoFrame A B p m A' /\ dget Nat.eqb m (root B) = Some r' /\
-    insert_wrapped A B p ws ki ko = (A'', m, Ok) /\ root A'' = root A /\
+    insert_hugr om A B (Some p) = (A', m, Ok) /\ IsoFrame A B p m A' /\ dget Nat.eqb m (root B) = Some r' /\
+    insert_wrapped om A B p ws ki ko = (A'', m, Ok) /\ root A'' = root A /\
     Permutation (q_links A'') (q_links A' ++ wire_links r' 0 ws) /\
     forall x, option_map shape4 (get_node A'' x) = option_map shape4 (get_node A' x).
 Proof. intros Op Meta. exact insert_wrappers_attach_sibling_wires. Qed.
@@ -113,37 +118,47 @@ Proof. intros Op Meta. exact insert_wrappers_attach_sibling_wires. Qed.
    twice: the image of B's root is node 4 under 3, the wires end in it at offsets 0 and 1, and ONE order link 1 -> 2
    is added; when A already has that link none is added. *)
 Definition exA : hugr nat nat :=
-  run (init 0 0) (map (@Basic nat nat) [AddNode 1 None None 0; AddNode 2 None None 0; AddNode 3 (Some 2) None 0]).
+  run (init 0 0) (map (fun c => (@Basic nat nat c, RUnit)) [AddNode 1 None None 0; AddNode 2 None None 0; AddNode 3 (Some 2) None 0]).
 Example C08_wrapper_guard_satisfiable_by_nonlocal_wires :
   wires_guard (abs exA) 3 [(1, 0%Z); (1, 0%Z)] = true /\
   wires_extra (abs exA) 3 4 [(1, 0%Z); (1, 0%Z)] =
     [((1, 0%Z), (4, 0%Z)); ((1, 0%Z), (4, 1%Z)); ((1, (-1)%Z), (2, (-1)%Z))] /\
-  (let '(A'', m, r) := insert_wrapped exA (init 5 0) 3 [(1, 0%Z); (1, 0%Z)] None None in
+  (let '(A'', m, r) := insert_wrapped [] exA (init 5 0) 3 [(1, 0%Z); (1, 0%Z)] None None in
    r = Ok /\ m = [(0, 4)] /\
    q_links A'' = [((1, (-1)%Z), (2, (-1)%Z)); ((1, 0%Z), (4, 0%Z)); ((1, 0%Z), (4, 1%Z))]) /\
   (let A1 := fst (add_order_link exA 1 2) in
    wires_extra (abs A1) 3 4 [(1, 0%Z)] = [((1, 0%Z), (4, 0%Z))] /\
-   q_links (fst (fst (insert_wrapped A1 (init 5 0) 3 [(1, 0%Z)] None None))) =
+   q_links (fst (fst (insert_wrapped [] A1 (init 5 0) 3 [(1, 0%Z)] None None))) =
      [((1, (-1)%Z), (2, (-1)%Z)); ((1, 0%Z), (4, 0%Z))]) /\
   (* a source inside a sibling region (node 3 for a call under 1) is outside the guard: NoSiblingAncestor *)
-  wires_guard (abs exA) 1 [(3, 0%Z)] = false /\ snd (insert_wrapped exA (init 5 0) 1 [(3, 0%Z)] None None) = EOther.
+  wires_guard (abs exA) 1 [(3, 0%Z)] = false /\ snd (insert_wrapped [] exA (init 5 0) 1 [(3, 0%Z)] None None) = EOther.
 Proof. vm_compute. repeat split; reflexivity. Qed.
 
 (* non-vacuity: a source whose child sits below its parent in index order after index reuse (the D20 trigger),
    with a multi-linked port and an order link, is inside the hypotheses, and insert_hugr maps it *)
-Definition exB : list (cmd nat nat) :=
-  map (@Basic nat nat)
+Definition exB : list (cmd nat nat * ret) :=
+  map (fun c => (@Basic nat nat c, RUnit))
   [AddNode 1 None None 0; AddNode 1 None None 0; DelNode 1; AddNode 2 (Some 2) (Some 1%Z) 0;
    AddLink (1, 0%Z) (2, 0%Z); AddLink (1, 0%Z) (2, 0%Z); AddOrder 2 1].
+(* a target with two freed indices (1 and 2, freed in that order): without choices the copies take the most recently
+   freed index first (2, then 1, then the fresh 4); with the choices of a smallest-first policy they take 1, 2, 4.
+   Both are isomorphic embeddings (C08_insert_iso_and_frame holds for every oracle). *)
+Definition exA2 : hugr nat nat :=
+  run (init 7 0) (map (fun c => (@Basic nat nat c, RUnit))
+    [AddNode 1 None None 0; AddNode 1 None None 0; AddNode 1 None None 0; DelNode 1; DelNode 2]).
 Example C08_premises_satisfiable :
   guarded (init 0 0) exB /\
   (exists d, get_node (run (init 0 0) exB) 1 = Some d /\ nd_parent d = Some 2) /\
-  snd (insert_hugr (init 7 0) (run (init 0 0) exB) None) = Ok /\
-  snd (fst (insert_hugr (init 7 0) (run (init 0 0) exB) None)) = [(0, 1); (2, 2); (1, 3)].
+  snd (insert_hugr [] (init 7 0) (run (init 0 0) exB) None) = Ok /\
+  snd (fst (insert_hugr [] (init 7 0) (run (init 0 0) exB) None)) = [(0, 1); (2, 2); (1, 3)] /\
+  snd (fst (insert_hugr [] exA2 (run (init 0 0) exB) None)) = [(0, 2); (2, 1); (1, 4)] /\
+  snd (fst (insert_hugr [(0, 1); (1, 4); (2, 2)] exA2 (run (init 0 0) exB) None)) = [(0, 1); (2, 2); (1, 4)].
 Proof.
-  split; [|split; [|split]].
+  split; [|split; [|split; [|split; [|split]]]].
   - cbn [exB map guarded]. repeat (split; [eexists; vm_compute; reflexivity|]). exact I.
   - eexists. split; vm_compute; reflexivity.
+  - vm_compute. reflexivity.
+  - vm_compute. reflexivity.
   - vm_compute. reflexivity.
   - vm_compute. reflexivity.
 Qed.
